@@ -188,7 +188,8 @@ def r1_normalisation(chk, rule='C06.R1', only=None):
             for table, key, text in lookup_sites(fn):
                 st = state_of(fn, key, norm_params)
                 n += 1
-                chk.ob(rule, '%s.%s/%s<-%s' % (cname, mname, table, key.id), st != 'RAW', where(ci.mod, key),
+                chk.ob(rule, '%s.%s/%s<-%s' % (cname, mname, table, key.id if st != 'RAW' else 'raw-label'),
+                       st != 'RAW', where(ci.mod, key),
                        'table %s is keyed by normalised names but is asked for `%s` as written in the MIB (%s): a '
                        'name with a hyphen is not found / attributed to the wrong module' % (table, key.id, text))
     chk.floor(rule, 15 if only is None else 2, 'lookup sites')
@@ -213,8 +214,14 @@ def r1_normalisation(chk, rule='C06.R1', only=None):
         o, gi = ci.find_method('genImports')
         ups = [c for c in walk_no_nested(gi) if isinstance(c, ast.Call) and norm(c.func) == 'self._importMap.update']
         ok = len(ups) == 1 and ups[0].args and isinstance(ups[0].args[0], ast.ListComp) and \
-            isinstance(ups[0].args[0].elt, ast.Tuple) and is_transopers(ups[0].args[0].elt.elts[0]) and \
-            norm(ups[0].args[0].elt.elts[1]) == 'module'
+            isinstance(ups[0].args[0].elt, ast.Tuple) and is_transopers(ups[0].args[0].elt.elts[0])
+        if ok:
+            lp_ = None
+            a_ = getattr(ups[0], '_parent', None)
+            while a_ is not None and not isinstance(a_, ast.For):
+                a_ = getattr(a_, '_parent', None)
+            ok = a_ is not None and isinstance(a_.target, ast.Name) and \
+                norm(ups[0].args[0].elt.elts[1]) == a_.target.id and 'sorted(' in norm(a_.iter)
         chk.ob(rule, '%s.genImports/_importMap-normalised' % cname, ok, where(ci.mod, gi),
                'the import map must map transOpers(symbol) -> the module it is imported from')
     # sequence members collected from every SEQUENCE
@@ -266,9 +273,13 @@ def r2_table_index(chk):
     chk.ob('C06.R2', 'genTableIndex/returns-list-first', ok, where(mod, fn), 'the index list must be returned first')
     # genObjectType stores it
     o2, got = ci.find_method('genObjectType')
-    ok = any(norm(s) == "indexStr, fakeStrlist, fakeSyms = index or ('', '', [])" for s in walk_no_nested(got) if
-             isinstance(s, ast.Assign)) and any(norm(s) == "outDict['indices'] = indexStr" for s in walk_no_nested(got)
-                                                if isinstance(s, ast.Assign))
+    un_ = [a.id for s in got.body if isinstance(s, ast.Assign) and isinstance(s.targets[0], ast.Tuple) and
+           _key_is(s.value, got.args.args[1].arg) for a in s.targets[0].elts]
+    iv_ = un_[8] if len(un_) == 11 else '?'
+    b = common.pfind([s for s in walk_no_nested(got) if isinstance(s, ast.Assign)],
+                     "$a, $b, $c = %s or ('', '', [])" % iv_)
+    ok = b is not None and any(common.pmatch(s, "$o['indices'] = %s" % b['a']) is not None
+                               for s in walk_no_nested(got) if isinstance(s, ast.Assign))
     chk.ob('C06.R2', 'genObjectType/indices-plumbing', ok, where(mod, got), 'indices must be the first result of the '
                                                                             'INDEX handler')
     # augmention
@@ -415,15 +426,20 @@ def r7_nodetype(chk, rule='C06.R7'):
     chk.doc(rule, 'nodetype = the kind the SYNTAX handler declares (table / row / scalar), overridden to column '
                   'exactly when the normalised object name is in the symbol table\'s complete SEQUENCE column list '
                   '(symbolTable[own module]["_symtable_cols"]), which does not depend on declaration order')
-    nts = [s for s in walk_no_nested(fn) if isinstance(s, ast.Assign) and _key_is(s.targets[0], 'nodetype')]
+    st_ = [s for s in ir.record_stores(fn) if s.key == ('nodetype',) and isinstance(s.value, ast.Name)]
+    ntv = st_[0].value.id if st_ else 'nodetype'
+    un_ = [a.id for s in fn.body if isinstance(s, ast.Assign) and isinstance(s.targets[0], ast.Tuple) and
+           _key_is(s.value, fn.args.args[1].arg) for a in s.targets[0].elts]
+    namev, synv = (un_[0], un_[1]) if len(un_) == 11 else ('name', 'syntax')
+    nts = [s for s in walk_no_nested(fn) if isinstance(s, ast.Assign) and _key_is(s.targets[0], ntv)]
     col = [s for s in nts if "'column'" in norm(s.value)]
     ok = len(col) == 1 and norm(col[0].value) == \
-        "name in self.symbolTable[self.moduleName[0]]['_symtable_cols'] and 'column' or nodetype"
+        "%s in self.symbolTable[self.moduleName[0]]['_symtable_cols'] and 'column' or %s" % (namev, ntv)
     chk.ob(rule, 'genObjectType/column-test', ok, where(mod, col[0]) if col else where(mod, fn),
            'column decision is `%s`: it must test the symbol table\'s complete column list' % (
                norm(col[0].value) if col else None))
     base = [s for s in nts if s not in col]
-    ok = len(base) == 1 and norm(base[0].value) == "syntax[0] == 'Bits' and 'scalar' or syntax[0]" and \
+    ok = len(base) == 1 and norm(base[0].value) == "%s[0] == 'Bits' and 'scalar' or %s[0]" % (synv, synv) and \
         base[0].lineno < (col[0].lineno if col else 0)
     chk.ob(rule, 'genObjectType/base-kind', ok, where(mod, fn), 'base node type must be the first component of the '
                                                                 'syntax handler result')
